@@ -171,8 +171,6 @@ impl<T> Arc<T> {
     #[verifier::external_body]
     pub fn as_ref(&self) -> (r: &T) ensures *r == self.v { unimplemented!() }
 }
-#[verifier::external_body]
-pub fn clone_ext(e: &FileExtensions) -> (r: FileExtensions) ensures r == *e { unimplemented!() }
 
 // ===========================================================================
 // [C15.workdir-watch] work_dir::is_in_work_dir — the watcher's half of the `.zinoma` rule
@@ -531,7 +529,6 @@ pub fn walk_filter_collect(walkdir: WalkDir, extensions: &Arc<FileExtensions>) -
 
 
 //@fn src/fs.rs list_files_in_path ret=r
-//@replace `Arc::from(extensions.clone())` => `Arc::from(clone_ext(extensions))` rule=R15 why=`Option<BTreeSet<String>>::clone -> prelude function returning an equal value`
 //@closure 0 skeleton=`task::spawn_blocking(<CLOSURE>) .await` becomes=`walk(walkdir, extensions)`
 //@contract
     ensures
